@@ -252,8 +252,11 @@ func checkC01SelectBind(c *Ctx) {
 // C11.key-nonzero: a parent takes part in eager loading when ANY component of its key is non-zero; the
 // flag is an accumulation over all key fields and is reset for every element of a slice.
 func checkC11KeyNonZero(c *Ctx) {
+	checkKeyNonZero(c, c.Rule("C11.key-nonzero", "identity keys: 'some component non-zero' accumulates over all fields and is reset per element", 2))
+}
+
+func checkKeyNonZero(c *Ctx, r *Rule) {
 	p := c.P
-	r := c.Rule("C11.key-nonzero", "identity keys: 'some component non-zero' accumulates over all fields and is reset per element", 2)
 	f := p.FuncDecl(pkgSchema, "GetIdentityFieldValuesMap")
 	c.Touch(f)
 	info := f.Pkg.TypesInfo
